@@ -8,7 +8,7 @@
      channel kind, undefined type, zero value) and thread/CPU rows type 100+t; merged labels in the .pcf.
 """
 import os, json, itertools, subprocess, shutil
-from lib.common import Ctx, Build, Scratch, InfraError, pmap
+from lib.common import Ctx, Build, Scratch, InfraError, pmap, plan_of
 from lib import emusrv, obs, pv
 from lib.emusrv import Ev, Fin, i32, i64
 from lib.explore import ServerPool, Explorer, Ref, short_hist, bind_shallow
@@ -297,7 +297,7 @@ def run_emulator(ctx, build, scratch, tier):
             ref = MarkRef(sidx, kind, defined1=(db is not None))
             ref.spec = {"spec": spec, "marks_A": da, "marks_B": db}
             ex = Explorer(ctx, pp, ref, name="walk-%s-%s" % (kind, who), report_props={"C17"}, check_time=False,
-                          max_depth=(4 if tier == "quick" else 6), max_states=(3000 if tier == "quick" else 40000))
+                          max_depth=(4 if tier == "quick" else (8 if tier == "deep" else 6)), max_states=(3000 if tier == "quick" else (400000 if tier == "deep" else 40000)))
             st = ex.run()
             if not ctx.nviol:
                 bind_shallow(ctx, build, system, pool, ex, "walk-%s-%s" % (kind, who), emu_flags=(), limit=(100 if tier == "quick" else 600))
@@ -308,6 +308,8 @@ def run_emulator(ctx, build, scratch, tier):
 
 def run(prop, tier):
     ctx = Ctx("C17", tier, "model_checking")
+    tier = plan_of("C17", tier)
+    ctx.cov["plan"] = tier
     scratch = Scratch("C17")
     try:
         build = Build()
